@@ -400,6 +400,7 @@ func cmdCheck(args []string) int {
 	reported := map[string]bool{}
 	nViol := 0
 	var violSamples []map[string]interface{}
+	knownPrinted := map[int]bool{}
 	ids := make([]string, 0, len(violByID))
 	for id := range violByID {
 		ids = append(ids, id)
@@ -446,9 +447,12 @@ func cmdCheck(args []string) int {
 		cd, _ := json.MarshalIndent(cex, "", " ")
 		os.WriteFile(cexPath, cd, 0o644)
 		isKnown := false
-		for _, k := range known {
+		for ki, k := range known {
 			if k.Property == c.prop && k.Status == "open" && labelMatch(k.Harness, v.Harness) && labelMatch(k.Label, v.Label) {
-				fmt.Printf("KNOWN-FINDING: property=%s %s\n", c.prop, k.What)
+				if !knownPrinted[ki] { // one line per listed finding, however many harnesses reach it
+					fmt.Printf("KNOWN-FINDING: property=%s %s\n", c.prop, k.What)
+					knownPrinted[ki] = true
+				}
 				isKnown = true
 				break
 			}
